@@ -480,3 +480,168 @@ def arg_of(call, pos=None, kw=None):
     if pos is not None and len(call.args) > pos:
         return call.args[pos]
     return None
+
+
+# -- (iii) truth-table comparison of conditions ---------------------------------------------------
+
+def _canon_le(p):
+    """integer atom p <= 0 -> (key, negated) with a positive leading coefficient."""
+    q, flipped = _sign_norm(p)
+    if not flipped:
+        return ('[%s <= 0]' % pstr(q), False)
+    # p <= 0  ==  not (-p < 0)  ==  not (-p + 1 <= 0)
+    q1 = _padd(q, {(): 1})
+    return ('[%s <= 0]' % pstr(q1), True)
+
+
+def cond_tt(n, env=None, negate=False):
+    """Condition -> tree over canonical atoms: ('and'|'or', [..]) | ('not', x) | ('var', key) | ('const', b)."""
+    env = env or FEnv()
+    if isinstance(n, ast.Name) and n.id in env.defs and env.depth < 12:
+        env.depth += 1
+        try:
+            return cond_tt(env.defs[n.id], env, negate)
+        finally:
+            env.depth -= 1
+    if isinstance(n, ast.UnaryOp) and isinstance(n.op, ast.Not):
+        return cond_tt(n.operand, env, not negate)
+    if isinstance(n, ast.BoolOp):
+        kind = 'and' if isinstance(n.op, ast.And) else 'or'
+        t = (kind, [cond_tt(v, env, False) for v in n.values])
+        return ('not', t) if negate else t
+    if isinstance(n, ast.Compare):
+        parts = []
+        left = n.left
+        for op, right in zip(n.ops, n.comparators):
+            parts.append(_tt_cmp(op, left, right, env))
+            left = right
+        t = parts[0] if len(parts) == 1 else ('and', parts)
+        return ('not', t) if negate else t
+    if isinstance(n, ast.Constant) and isinstance(n.value, bool):
+        return ('const', n.value != negate)
+    if isinstance(n, ast.IfExp):
+        c = cond_tt(n.test, env)
+        t = ('or', [('and', [c, cond_tt(n.body, env)]), ('and', [('not', c), cond_tt(n.orelse, env)])])
+        return ('not', t) if negate else t
+    # truthiness of a value: not (value == 0)
+    p = _nf(n, env)
+    q, _ = _sign_norm(p)
+    t = ('not', ('var', '[%s == 0]' % pstr(q)))
+    return ('not', t) if negate else t
+
+
+def _tt_cmp(op, left, right, env):
+    if isinstance(op, (ast.In, ast.NotIn)):
+        l = pstr(_nf(left, env))
+        if isinstance(right, (ast.Tuple, ast.List, ast.Set)):
+            elems = [pstr(_nf(e, env)) for e in right.elts]
+            t = ('or', [('var', '[%s is %s]' % (l, e)) for e in sorted(elems)])
+        else:
+            t = ('var', '[%s in %s]' % (l, pstr(_nf(right, env))))
+        return ('not', t) if isinstance(op, ast.NotIn) else t
+    a = _nf(left, env)
+    b = _nf(right, env)
+    if isinstance(op, (ast.Is, ast.IsNot, ast.Eq, ast.NotEq)):
+        # comparison with a string/None literal: domain atom
+        for x, y in ((a, b), (b, a)):
+            ys = pstr(y)
+            if len(y) == 1 and list(y.values()) == [1] and (ys.startswith("'") or ys.startswith('b\'') or ys == 'None'):
+                t = ('var', '[%s is %s]' % (pstr(x), ys))
+                return ('not', t) if isinstance(op, (ast.IsNot, ast.NotEq)) else t
+        d, _ = _sign_norm(_padd(a, b, -1))
+        t = ('var', '[%s == 0]' % pstr(d))
+        return ('not', t) if isinstance(op, (ast.IsNot, ast.NotEq)) else t
+    d = _padd(a, b, -1)
+    if isinstance(op, ast.LtE):
+        key, neg = _canon_le(d)
+    elif isinstance(op, ast.Lt):
+        key, neg = _canon_le(_padd(d, {(): 1}))
+    elif isinstance(op, ast.GtE):
+        key, neg = _canon_le(_pmul(d, {(): -1}))
+    elif isinstance(op, ast.Gt):
+        key, neg = _canon_le(_padd(_pmul(d, {(): -1}), {(): 1}))
+    else:
+        return ('var', '[?%s]' % pstr(d))
+    t = ('var', key)
+    return ('not', t) if neg else t
+
+
+def tt_vars(t, acc=None):
+    acc = acc if acc is not None else set()
+    if t[0] == 'var':
+        acc.add(t[1])
+    elif t[0] == 'not':
+        tt_vars(t[1], acc)
+    elif t[0] in ('and', 'or'):
+        for x in t[1]:
+            tt_vars(x, acc)
+    return acc
+
+
+def tt_eval(t, asg):
+    k = t[0]
+    if k == 'var':
+        return asg[t[1]]
+    if k == 'not':
+        return not tt_eval(t[1], asg)
+    if k == 'and':
+        return all(tt_eval(x, asg) for x in t[1])
+    if k == 'or':
+        return any(tt_eval(x, asg) for x in t[1])
+    if k == 'const':
+        return t[1]
+    raise ValueError(k)
+
+
+def tt_equiv(t1, t2, limit=1 << 20):
+    """Compare two condition trees over all assignments of their atoms.  `[x is 'A']` atoms over the
+    same subject x are mutually exclusive (x takes one value): enumerated over the value domain.
+    Returns (equal, counterexample assignment or None, number of assignments)."""
+    import itertools
+    import re
+    vs = sorted(tt_vars(t1) | tt_vars(t2))
+    dom = {}
+    free = []
+    for v in vs:
+        m = re.match(r"^\[(.+) is ('.*'|b'.*'|None)\]$", v)
+        if m:
+            dom.setdefault(m.group(1), []).append((v, m.group(2)))
+        else:
+            free.append(v)
+    subjects = sorted(dom)
+    spaces = [[None] + [val for _, val in dom[s]] for s in subjects]   # None = some other value
+    total = (1 << len(free))
+    for sp in spaces:
+        total *= len(sp)
+    if total > limit:
+        raise AnalysisError('E-iii', 'tt_equiv', 'truth table too large: %d' % total)
+    n = 0
+    for bits in itertools.product([False, True], repeat=len(free)):
+        base = dict(zip(free, bits))
+        for choice in itertools.product(*spaces):
+            asg = dict(base)
+            for s, val in zip(subjects, choice):
+                for v, vv in dom[s]:
+                    asg[v] = (vv == val)
+            n += 1
+            if tt_eval(t1, asg) != tt_eval(t2, asg):
+                return False, dict((k, v) for k, v in asg.items() if v), n
+    return True, None, n
+
+
+def spec_tt(text, consts=None):
+    return cond_tt(ast.parse(text, mode='eval').body, FEnv(consts=consts))
+
+
+def func_truth_formula(func, env):
+    """Boolean function 'returns a true value' of a function whose returns are booleans or
+    conditions: OR over returning paths of (path conditions AND return expression)."""
+    from . import paths as P
+    terms = []
+    for conds, ret, p in P.returns_with_conds(func):
+        cs = [cond_tt(t, env, negate=not pol) for t, pol in conds]
+        if ret is None:
+            continue
+        cs.append(cond_tt(ret, env))
+        terms.append(('and', cs))
+    return ('or', terms)
